@@ -3,7 +3,8 @@ package basic
 import enc "github.com/named-data/ndnd/std/encoding"
 
 // NameTrie is a simple implementation of a Name trie (node/subtree) used for PIT and FIB.
-// It is slow due to the usage of String(). Subject to change when it explicitly affects performance.
+// Children are keyed by the TLV encoding of the component: unlike the URI form (String), which prints
+// every encoding width of a number the same way, it is different for components that are not Equal.
 type NameTrie[V any] struct {
 	val V
 	key string
@@ -27,7 +28,7 @@ func (n *NameTrie[V]) ExactMatch(name enc.Name) *NameTrie[V] {
 	if len(name) <= n.dep {
 		return n
 	}
-	c := name[n.dep].String()
+	c := string(name[n.dep].Bytes())
 	if ch, ok := n.chd[c]; ok {
 		return ch.ExactMatch(name)
 	} else {
@@ -41,7 +42,7 @@ func (n *NameTrie[V]) PrefixMatch(name enc.Name) *NameTrie[V] {
 	if len(name) <= n.dep {
 		return n
 	}
-	c := name[n.dep].String()
+	c := string(name[n.dep].Bytes())
 	if ch, ok := n.chd[c]; ok {
 		return ch.PrefixMatch(name)
 	} else {
@@ -68,7 +69,7 @@ func (n *NameTrie[V]) MatchAlways(name enc.Name) *NameTrie[V] {
 	if len(name) <= n.dep {
 		return n
 	}
-	c := name[n.dep].String()
+	c := string(name[n.dep].Bytes())
 	ch, ok := n.chd[c]
 	if !ok {
 		ch = newTrieNode(c, n)
@@ -82,7 +83,7 @@ func (n *NameTrie[V]) FirstSatisfyOrNew(name enc.Name, pred func(V) bool) *NameT
 	if len(name) <= n.dep || pred(n.val) {
 		return n
 	}
-	c := name[n.dep].String()
+	c := string(name[n.dep].Bytes())
 	ch, ok := n.chd[c]
 	if !ok {
 		ch = newTrieNode(c, n)
